@@ -524,6 +524,10 @@ func run(c *core.Ctx) {
 		{`<script type="text/plain">{{.V}}</script>`, "", "Script"}, {`<script type="application/json">{{.V}}</script>`, "", "Script"}, {`<script type="text/javascript" type="text/plain">{{.V}}</script>`, "", "Script"},
 		{`<script type="text/&#106;avascript">{{.V}}</script>`, "", "Script"}, {`<script type="text/java{{/**/}}script">{{.V}}</script>`, "", "Script"}, {`<script type{{/**/}}x="text/plain">{{.V}}</script>`, "", "Script"},
 		{`<script {{if .C}}title{{else}}type{{end}}="text/plain">{{.V}}</script>`, "", "Script"}, {`<script type="module">{{.V}}</script>`, "", "Script"}, {`<script type="">{{.V}}</script>`, "", "Script"},
+		// the same (element, attribute) pair twice in one template, sanitized differently because of another attribute
+		{`<link rel="icon" href="{{.V}}"><link rel="stylesheet" href="{{.V}}">`, "href", "TrustedResourceURL"}, {`<link href="{{.V}}"><link rel="stylesheet" href="{{.V}}">`, "href", "TrustedResourceURL"},
+		{`{{define "l"}}<link rel="icon" href="{{.}}">{{end}}{{template "l" .V}}<link rel="stylesheet" href="{{.V}}">`, "href", "TrustedResourceURL"}, {`<link rel="icon" title="/y"><link rel="stylesheet" href="{{.V}}"><link rel="icon" title="/z">`, "href", "TrustedResourceURL"},
+		{`<link rel="stylesheet" title="/s.css"><link rel="icon" href="{{.V}}">`, "href", "TrustedResourceURLOrURL"}, {`<script type="text/plain">x</script><script>{{.V}}</script>`, "", "Script"},
 		{`<p.x>{{.V}}</p.x>`, "", "Reject"}, {`<a_b href="{{.V}}">`, "", "Reject"}, {`<p.=""title="{{.V}}">`, "", "Reject"},
 	} {
 		if c.Mine(i) {
